@@ -184,11 +184,13 @@ def _case(ctx, arbitrary=False):
                 exp = _ref(t, v, memo)
                 ctx.evaluations += 1
                 bump("node-membership")
-                for how in ("in", "contains"):
+                for how in ("in", "contains", "in(Version)"):
                     try:
-                        # `in` receives the candidate as text, as the marker layer does
-                        got = (str(v) in value) if how == "in" else (
-                            value.contains(v) if hasattr(value, "contains") else (str(v) in value))
+                        # `in` receives the candidate as text, as the marker layer does - and as a parsed Version,
+                        # which its signature documents as well (for === results the candidate's own spelling
+                        # decides: 1.0 and 1.0.0 are different candidates)
+                        got = (str(v) in value) if how == "in" else ((v in value) if how == "in(Version)" else (
+                            value.contains(v) if hasattr(value, "contains") else (str(v) in value)))
                     except Exception as e:  # noqa: BLE001
                         violation(PROP, "node-membership", f"membership test raised {type(e).__name__}",
                                   {"tree": W.tree_text(t)[:400], "version": str(v), "how": how, "error": str(e)[:200]})
